@@ -9,8 +9,14 @@ use libc::{c_char, c_int, c_void, mode_t, msghdr, off_t, size_t, socklen_t, ssiz
 
 pub const IS_MODEL: bool = true;
 pub const MAXA: usize = 10;
+#[cfg(not(feature = "bigfd"))]
 pub const MAXF: usize = 6;
+#[cfg(feature = "bigfd")]
+pub const MAXF: usize = 70;
+#[cfg(not(feature = "bigfd"))]
 pub const NFD: usize = 48;
+#[cfg(feature = "bigfd")]
+pub const NFD: usize = 200;
 
 #[derive(Clone, Copy)]
 pub struct Att {
